@@ -245,6 +245,16 @@ func BuildAt(r *rand.Rand, inc int, sh Shape, base int) []PubMsg {
 			ts += 33
 		}
 	}
+	if sh.TsMode == 1 {
+		// the first media message at or after 0xFFFFFF gets exactly that timestamp (the value at
+		// which the chunk header switches to the extended timestamp field)
+		for k := range out {
+			if out[k].IsMedia() && out[k].Ts >= 0xFFFFFF {
+				out[k].Ts = 0xFFFFFF
+				break
+			}
+		}
+	}
 	return out
 }
 
